@@ -259,6 +259,39 @@ func main() {
 				nontr++
 			}
 		}
+		// the destination's previous content must not matter (the owning runtimes' Unmarshal resets first)
+		if zb, zerr := s.cls.marshal(s.zero()); zerr == nil {
+			for _, dir := range []struct {
+				name string
+				dec  func([]byte, any) error
+			}{
+				{"csproto", func(b []byte, x any) error { return csproto.Unmarshal(b, x) }},
+				{"GrpcCodec", func(b []byte, x any) error { return csproto.GrpcCodec{}.Unmarshal(b, x) }},
+			} {
+				for _, in := range []struct {
+					what string
+					b    []byte
+					want func() any
+				}{{"own-bytes-into-populated-target", rb, s.mk}, {"empty-message-bytes-into-populated-target", zb, s.zero}} {
+					z := s.mk()
+					w := s.zero()
+					var err, rerr2 error
+					if p := guard(func() { err = dir.dec(in.b, z) }); p != "" {
+						fail("Unmarshal/"+dir.name+"/"+in.what, s, "panic: "+p)
+						continue
+					}
+					rerr2 = s.cls.unmarshal(in.b, w)
+					evals++
+					if (err == nil) != (rerr2 == nil) {
+						fail("Unmarshal/"+dir.name+"/"+in.what, s, fmt.Sprintf("csproto err=%v, owning runtime err=%v", err, rerr2))
+					} else if err == nil && !same(in.want(), z) {
+						fail("Unmarshal/"+dir.name+"/"+in.what, s, "result depends on the previous content of the target: "+gcore.Diff(gcore.Reflect(in.want()), gcore.Reflect(z)))
+					} else if err == nil {
+						nontr++
+					}
+				}
+			}
+		}
 		if gb, gerr := (csproto.GrpcCodec{}).Marshal(s.mk()); gerr != nil || len(gb) != len(cb) {
 			fail("GrpcCodec.Marshal", s, fmt.Sprintf("len %d vs %d err=%v", len(gb), len(cb), gerr))
 		}
